@@ -171,8 +171,11 @@ func drawBoundaryTarget(t *rapid.T) boundaryTarget {
 		switch c := rapid.IntRange(0, 19).Draw(t, "unit"); {
 		case c < 9:
 			bt.unit, bt.k = 64, rapid.IntRange(1, 7).Draw(t, "k")
-		case c < 19:
+		case c < 19 || bt.quantity == "nodes":
 			bt.unit, bt.k = 512, rapid.SampledFrom([]int{1, 1, 1, 1, 2, 2, 3}).Draw(t, "k")
+			if bt.quantity == "nodes" && bt.k == 3 { // 1536 nodes: ~5000 keys
+				bt.k = 2
+			}
 		default:
 			bt.unit, bt.k = 512, rapid.SampledFrom([]int{4, 8}).Draw(t, "k")
 		}
@@ -214,6 +217,10 @@ func (ks *sortedKeySet) removeLast() {
 	ks.sorted = append(ks.sorted[:i], ks.sorted[i+1:]...)
 }
 
+// maxTunedKeys bounds a tuned key set (a style whose tries cannot reach the drawn number of nodes
+// would otherwise be enumerated completely).
+const maxTunedKeys = 6000
+
 // tuneKeys grows a key set of the style until the target is reached. It returns the set and
 // whether the target was reached (the universe of a small alphabet can be exhausted first; the
 // case is judged all the same and counted as boundary-not-reached).
@@ -221,7 +228,7 @@ func tuneKeys(s src, st keyStyle, bt boundaryTarget) (*sortedKeySet, trieShape, 
 	ks := &sortedKeySet{taken: map[string]struct{}{}}
 	sh := trieShape{}
 	failures := 0
-	for failures < 400 {
+	for failures < 400 && len(ks.order) < maxTunedKeys {
 		if len(ks.order) > 0 && bt.reached(sh) {
 			return ks, sh, true
 		}
@@ -362,12 +369,22 @@ func TestVectorBoundaries(t *testing.T) {
 	const grp = "TestVectorBoundaries"
 	rapid.Check(t, func(t *rapid.T) {
 		bt := drawBoundaryTarget(t)
-		st := append([]keyStyle{styleWide, styleWide2, styleWide4}, bigStyles...)[rapid.IntRange(0, len(bigStyles)+2).Draw(t, "style")]
-		if bt.value() <= 200 && rapid.IntRange(0, 1).Draw(t, "smallStyle") == 0 {
-			st = smallStyles[rapid.IntRange(0, len(smallStyles)-1).Draw(t, "style")]
-		}
-		if st.name == "wide2" && (bt.quantity != "labels" || bt.value() > 450) {
-			st = styleWide4 // 512 keys and 3 nodes are all that wide2 has
+		var st keyStyle
+		switch c := rapid.IntRange(0, 9).Draw(t, "styleKind"); {
+		case c <= 1:
+			st = styleWide2
+			if bt.quantity != "labels" || bt.value() > 450 {
+				st = styleWide4 // 512 keys and 3 nodes are all that wide2 has
+			}
+		case c == 2:
+			st = styleWide
+		case c == 3:
+			st = styleWide4
+		default:
+			st = bigStyles[rapid.IntRange(0, len(bigStyles)-1).Draw(t, "style")]
+			if bt.value() <= 200 && rapid.IntRange(0, 1).Draw(t, "smallStyle") == 0 {
+				st = smallStyles[rapid.IntRange(0, len(smallStyles)-1).Draw(t, "style")]
+			}
 		}
 		s := &prngSrc{s: rapid.Uint64().Draw(t, "keySeed")}
 		ks, sh, hit := tuneKeys(s, st, bt)
